@@ -27,8 +27,9 @@ type DHCPFinding struct {
 }
 
 type dhcpBinding struct {
-	client string
-	until  time.Time
+	client   string
+	until    time.Time
+	captured bool // capture state of the client when the binding was acknowledged
 }
 
 type dhcpReq struct {
@@ -75,6 +76,22 @@ func (m *DHCPMon) expire() {
 			delete(m.leaseA, c)
 		}
 	}
+}
+
+// Forget drops every shadowed binding and offer: the server was restarted with a changed configuration, which by design
+// (dhcp4.go, "Reset leases if error or config has changed") makes it start from an empty lease table.
+func (m *DHCPMon) Forget() {
+	m.held = map[netip.Addr]dhcpBinding{}
+	m.lease = map[string]dhcpBinding{}
+	m.leaseA = map[string]netip.Addr{}
+	m.offers = map[string]netip.Addr{}
+}
+
+// HeldInfo returns the holder of the address in the C11 shadow and the capture state it was acknowledged under.
+func (m *DHCPMon) HeldInfo(a netip.Addr) (client string, captured, ok bool) {
+	m.expire()
+	b, ok := m.held[a]
+	return b.client, b.captured, ok
 }
 
 // HeldBy returns the client holding the address in the C11 shadow.
@@ -330,8 +347,8 @@ func (m *DHCPMon) Reply(rep refdec.DHCPMsg, tracked func(netip.Addr) (refdec.MAC
 			delete(m.held, x)
 		}
 	}
-	m.held[a] = dhcpBinding{client, until}
-	m.lease[client] = dhcpBinding{client, until}
+	m.held[a] = dhcpBinding{client, until, r.captured}
+	m.lease[client] = dhcpBinding{client, until, r.captured}
 	m.leaseA[client] = a
 	delete(m.offers, key)
 	return
